@@ -524,26 +524,23 @@ Proof.
     intros t [Ht|[]]. apply S3. exact Ht.
 Qed.
 
-(* ---- the resolver looks at member 0 only: values it cannot tell apart ---- *)
+(* ---- unfolding lemmas for the document-side resolver ---- *)
 Definition getv (term : string) (m : members) : json :=
   match jget term m with Some v => v | None => JNull end.
-
-Fixpoint jsim (ld : loader) (pi : list string) (a b : json) : Prop :=
-  match pi with
-  | [] => True
-  | term :: rest =>
-      if is_num term then jsim ld rest a b
-      else exists ma mb, resolver_object a true = Ok ma /\ resolver_object b true = Ok mb /\
-             (forall G, resolver_enter ld G ma = resolver_enter ld G mb) /\
-             jsim ld rest (getv term ma) (getv term mb)
-  end.
 
 Lemma pfd_nil : forall ld G doc acc, pfd ld [] G doc acc = Ok [].
 Proof. reflexivity. Qed.
 
 Lemma pfd_num : forall ld i r G doc acc, is_num i = true ->
   pfd ld (i :: r) G doc acc =
-  if Z.leb (num_val i) max_int32 then (more <- pfd ld r G doc true ;; Ok (PInt (num_val i) :: more))
+  if Z.leb (num_val i) max_int32 then
+    match doc with
+    | JArr l => match nth_error l (Z.to_nat (num_val i)) with
+                | Some x => more <- pfd ld r G x false ;; Ok (PInt (num_val i) :: more)
+                | None => Err "index-out-of-range"
+                end
+    | _ => Err "not-an-array"
+    end
   else Err "parse-int".
 Proof. intros. cbn [pfd]. rewrite H. reflexivity. Qed.
 
@@ -560,33 +557,18 @@ Lemma pfd_term : forall ld t r G doc acc, is_num t = false ->
    end).
 Proof. intros. cbn [pfd]. rewrite H. reflexivity. Qed.
 
-Lemma pfd_jsim : forall ld pi G a b, jsim ld pi a b -> pfd ld pi G a true = pfd ld pi G b true.
-Proof.
-  intros ld pi. induction pi as [|t r IH]; intros G a b H; [reflexivity|].
-  cbn [jsim] in H. destruct (is_num t) eqn:Hn.
-  - rewrite !pfd_num by exact Hn. rewrite (IH G a b H). reflexivity.
-  - rewrite !pfd_term by exact Hn.
-    destruct H as [ma [mb [Ha [Hb [He Hr]]]]]. rewrite Ha, Hb. cbn [bind].
-    rewrite He. destruct (resolver_enter ld _ mb) as [G2| | |]; try reflexivity. cbn [bind].
-    destruct (term_def G2 t) as [d|]; [|reflexivity].
-    destruct (opt_cparse ld G2 (td_ctx d)) as [G3| | |]; try reflexivity. cbn [bind].
-    rewrite (IH (Some G3) _ _ Hr). reflexivity.
-Qed.
-
-Lemma pfd_arr_head : forall ld pi G m' tl,
-  pfd ld pi G (JArr (JObj m' :: tl)) true = pfd ld pi G (JObj m') true.
-Proof.
-  intros ld pi. induction pi as [|t r IH]; intros G m' tl; [reflexivity|].
-  destruct (is_num t) eqn:Hn.
-  - rewrite !pfd_num by exact Hn. rewrite IH. reflexivity.
-  - rewrite !pfd_term by exact Hn. reflexivity.
-Qed.
+Lemma pfd_arr_head : forall ld t r G m' tl, is_num t = false ->
+  pfd ld (t :: r) G (JArr (JObj m' :: tl)) true = pfd ld (t :: r) G (JObj m') true.
+Proof. intros ld t r G m' tl Hn. rewrite !pfd_term by exact Hn. reflexivity. Qed.
 
 Lemma pfd_none : forall ld pi doc acc, pfd ld pi None doc acc = pfd ld pi (Some empty_ctx) doc acc.
 Proof.
   intros ld pi. induction pi as [|t r IH]; intros doc acc; [reflexivity|].
   destruct (is_num t) eqn:Hn.
-  - rewrite !pfd_num by exact Hn. rewrite IH. reflexivity.
+  - rewrite !pfd_num by exact Hn.
+    destruct (Z.leb (num_val t) max_int32); [|reflexivity].
+    destruct doc as [| | | | |l|]; try reflexivity.
+    destruct (nth_error l (Z.to_nat (num_val t))); [|reflexivity]. rewrite IH. reflexivity.
   - rewrite !pfd_term by exact Hn. reflexivity.
 Qed.
 
@@ -616,7 +598,6 @@ Fixpoint ok_along (ld : loader) (pi : list string) (Ag : string -> Prop) (GrP Gs
               | i :: rest' =>
                   match nth_error l (Z.to_nat (num_val i)) with
                   | Some (JObj m') =>
-                      jsim ld rest' (JArr l) (JObj m') /\
                       ok_along ld rest' (Ag_node Ag ld GsP scoped m G3) Gr2 G4 (td_ctx d) m'
                   | _ => True
                   end
@@ -668,22 +649,22 @@ Definition main_stmt (ld : loader) (pi : list string) : Prop :=
   p = leaf_path l.
 
 (* continuing into the node object m' (both walks), given the statement for the rest *)
-Lemma step_into_object : forall ld r (Ag' : string -> Prop) Gr2 G4 d G3r m' more pe l,
+Lemma step_into_object : forall ld r (Ag' : string -> Prop) Gr2 G4 d G3r m' more pe l acc,
   main_stmt ld r ->
   simC Ag' Gr2 G4 ->
   opt_cparse ld Gr2 (td_ctx d) = Ok G3r ->
-  pfd ld r (Some G3r) (JObj m') true = Ok more ->
+  pfd ld r (Some G3r) (JObj m') acc = Ok more ->
   field_step ld G4 (Some d) (JObj m') pe r (field_at ld r) = Ok l ->
   ok_along ld r Ag' Gr2 G4 (td_ctx d) m' ->
   leaf_path l = pe ++ more.
 Proof.
-  intros ld r Ag' Gr2 G4 d G3r m' more pe l IH Hs Hc Hp Hf Hok.
+  intros ld r Ag' Gr2 G4 d G3r m' more pe l acc IH Hs Hc Hp Hf Hok.
   cbn [field_step] in Hf.
   apply bind_ok in Hf. destruct Hf as [cc [Hent Hf]].
   apply bind_ok in Hf. destruct Hf as [l0 [Hrec Hf]].
   destruct l0 as [[q dt] v]. inversion Hf; subst l. unfold leaf_path. cbn [fst].
   destruct cc as [G3' G4'].
-  rewrite (IH Ag' Gr2 G4 (td_ctx d) m' G3r G3' G4' true more (q, dt, v) Hs Hc Hp Hent Hrec Hok).
+  rewrite (IH Ag' Gr2 G4 (td_ctx d) m' G3r G3' G4' acc more (q, dt, v) Hs Hc Hp Hent Hrec Hok).
   reflexivity.
 Qed.
 
@@ -766,8 +747,14 @@ Proof.
         -- destruct (Hleaf (JStr s) [PStr e] eq_refl Hx) as [Er Hl]. subst rest. rewrite pfd_nil in Hmore.
            inversion Hmore; subst more. rewrite Hl, Hee. reflexivity.
         -- cbn in Hx. discriminate.
-        -- rewrite pfd_arr_head in Hmore.
-           rewrite (step_into_object ld rest _ Gr2 G4 d G3r m' more [PStr e] l IHrest Hs' Hc3 Hmore Hx Hcont).
+        -- assert (Hmore' : pfd ld rest (Some G3r) (JObj m') true = Ok more).
+           { destruct rest as [|t0 r0]; [exact Hmore|].
+             destruct (is_num t0) eqn:Ht0.
+             - cbn [field_step] in Hx. apply bind_ok in Hx. destruct Hx as [cc [_ Hx]].
+               apply bind_ok in Hx. destruct Hx as [l0 [Hx _]]. cbn [field_at] in Hx. rewrite Ht0 in Hx.
+               cbn in Hx. discriminate.
+             - rewrite pfd_arr_head in Hmore by exact Ht0. exact Hmore. }
+           rewrite (step_into_object ld rest _ Gr2 G4 d G3r m' more [PStr e] l true IHrest Hs' Hc3 Hmore' Hx Hcont).
            rewrite Hee. reflexivity.
       * (* at least two members: an index is required *)
         destruct rest as [|i rest']; [discriminate|].
@@ -775,6 +762,7 @@ Proof.
         destruct (nth_error (x1 :: x2 :: l') (Z.to_nat (num_val i))) as [x|] eqn:Hnth; [|discriminate].
         rewrite (pfd_num ld i rest' _ _ _ Hinum) in Hmore.
         destruct (Z.leb (num_val i) max_int32); [|discriminate].
+        rewrite Hnth in Hmore.
         apply bind_ok in Hmore. destruct Hmore as [more' [Hmore' Hmore]]. inversion Hmore; subst more. clear Hmore.
         assert (IHrest' : main_stmt ld rest') by (apply IHN; cbn in Hlen; lia).
         assert (Hleaf' : forall pe, is_scalar x = true ->
@@ -793,15 +781,13 @@ Proof.
         -- destruct (Hleaf' _ eq_refl Hf) as [Er Hl]. subst rest'. rewrite pfd_nil in Hmore'.
            inversion Hmore'; subst more'. rewrite Hl, Hee. reflexivity.
         -- cbn in Hf. discriminate.
-        -- destruct Hcont as [Hjs Hcont].
-           rewrite (pfd_jsim ld rest' _ _ _ Hjs) in Hmore'.
-           rewrite (step_into_object ld rest' _ Gr2 G4 d G3r m' more' [PStr e; PInt (num_val i)] l
+        -- rewrite (step_into_object ld rest' _ Gr2 G4 d G3r m' more' [PStr e; PInt (num_val i)] l false
                       IHrest' Hs' Hc3 Hmore' Hf Hcont).
            rewrite Hee. reflexivity.
     + (* JObj *)
       assert (Hx : field_step ld G4 (Some d) (JObj m') [PStr e] rest (field_at ld rest) = Ok l).
       { destruct rest as [|i r']; [exact Hf|]. destruct (is_num i); [discriminate|exact Hf]. }
-      rewrite (step_into_object ld rest _ Gr2 G4 d G3r m' more [PStr e] l IHrest Hs' Hc3 Hmore Hx Hcont).
+      rewrite (step_into_object ld rest _ Gr2 G4 d G3r m' more [PStr e] l true IHrest Hs' Hc3 Hmore Hx Hcont).
       rewrite Hee. reflexivity.
 Qed.
 
@@ -815,9 +801,10 @@ Proof. intros Ag G t _. reflexivity. Qed.
 (* The path the (faithful) document-side resolver returns is the path under which
    the document states the field, and that fact is one of the document's facts —
    provided nothing the walk uses below a node was defined or changed by a
-   type-scoped context of an ancestor (ok_along), and the members of indexed arrays
-   are indistinguishable for the resolver (jsim, inside ok_along).  That the numeric
-   segments are in range is part of `doc_field ... = Ok _`. *)
+   type-scoped context of an ancestor (ok_along).  Since fix 8c11b39 the resolver
+   continues in the selected member of an array, so no condition on the members is
+   needed.  That every array is addressed with its index (D31) and that a one-member
+   array is addressed without one are part of `doc_field ... = Ok _`. *)
 Theorem doc_vs_store : forall ld m pi p p' dt v fs,
   path_from_document ld (JObj m) pi = Ok p ->
   doc_field ld (JObj m) pi = Ok (p', dt, v) ->
